@@ -39,6 +39,8 @@ static pthread_mutex_t evlock = PTHREAD_MUTEX_INITIALIZER; /* only contended out
 
 /* ---------- ids ---------- */
 typedef struct { const void **tab; long n, cap; } idns_t;
+typedef struct { const void *alias; long id; } alias_t;
+static alias_t *aliases[NS_MAX]; static long nalias[NS_MAX], capalias[NS_MAX];
 static idns_t ids[NS_MAX];
 static const void *qtab[MAXW];
 
@@ -80,10 +82,21 @@ long myth_verif_id(int ns, const void *p){
   if (!p) return 0;
   if (ns < 0 || ns >= NS_MAX) ns = NS_MAX - 1;
   t = &ids[ns];
+  for (i = nalias[ns] - 1; i >= 0; i--) if (aliases[ns][i].alias == p) return aliases[ns][i].id;
   for (i = t->n - 1; i >= 0; i--) if (t->tab[i] == p) return i + 1;
   if (t->n == t->cap){ t->cap = t->cap ? t->cap * 2 : 256; t->tab = realloc(t->tab, t->cap * sizeof(void*)); }
   t->tab[t->n++] = p;
   return t->n;
+}
+/* id of `key`, and from now on `alias` names the same object (e.g. a stack is identified by the base of
+   its memory block, while the library refers to it by its top-of-stack pointer, which depends on the size) */
+long myth_verif_id_alias(int ns, const void *key, const void *alias){
+  long id = myth_verif_id(ns, key), i;
+  if (ns < 0 || ns >= NS_MAX) ns = NS_MAX - 1;
+  for (i = 0; i < nalias[ns]; i++) if (aliases[ns][i].alias == alias){ aliases[ns][i].id = id; return id; }
+  if (nalias[ns] == capalias[ns]){ capalias[ns] = capalias[ns] ? capalias[ns] * 2 : 64; aliases[ns] = realloc(aliases[ns], capalias[ns] * sizeof(alias_t)); }
+  aliases[ns][nalias[ns]].alias = alias; aliases[ns][nalias[ns]].id = id; nalias[ns]++;
+  return id;
 }
 long myth_verif_addr(const void *p){ return (long)p; }
 
@@ -294,7 +307,7 @@ void vrt_arm(const vrt_opts *o, const void *main_desc){
   O = *o; NW = O.nworkers; if (NW > MAXW) NW = MAXW;
   rng = (unsigned long long)O.seed * 2654435761ULL + 88172645463325252ULL; for (i = 0; i < 8; i++) rnd();
   for (i = 0; i < NW; i++){ sem_init(&sem[i], 0, 0); idle[i] = 0; }
-  for (i = 0; i < NS_MAX; i++) ids[i].n = 0;
+  for (i = 0; i < NS_MAX; i++){ ids[i].n = 0; nalias[i] = 0; }
   nonprogress = 0; stepno = 0; lowprio = 0; vsec = 1000; vnsec = 0;
   if (O.strategy == VRT_STRAT_PCT){
     for (i = 0; i < NW; i++) prio[i] = i + 1;
